@@ -296,10 +296,25 @@ func run(c *Ctx) {
 func adSet(n *netceptor.Netceptor) map[string]bool {
 	out := map[string]bool{}
 	for _, ad := range n.Status().Advertisements {
-		out[ad.NodeID+"/"+ad.Service+"/"+ad.Tags["k"]] = true
+		out[adKey(ad.NodeID, ad.Service, ad.Tags["k"], ad.Tags["type"], ad.ConnType, ad.WorkCommands)] = true
 	}
 	return out
 }
+
+// adKey: everything the property says a listing carries - owner, service, tags and connection type; the
+// first three fields stay "/"-separated for the prefix tests
+func adKey(node, svc, tag, typ string, connType byte, wc []netceptor.WorkCommand) string {
+	// (the work commands are deliberately NOT part of the key: the property speaks of type and tags; the
+	// owner's own Status() decorates every own service with its work types, other nodes see them on control
+	// services only - recorded as an observation, not judged)
+	k := fmt.Sprintf("%s/%s/%s", node, svc, tag)
+	if typ != "" || connType != netceptor.ConnTypeDatagram {
+		k += fmt.Sprintf("|type=%s|conn=%d", typ, connType)
+	}
+	return k
+}
+
+type closer interface{ Close() error }
 
 func meshScenarios(c *Ctx, im *Impl) {
 	r := c.Rng
@@ -332,19 +347,46 @@ func meshScenarios(c *Ctx, im *Impl) {
 		for i := 1; i < n-1; i++ {
 			connect(names[r.Intn(i)], names[i])
 		}
-		open := map[string]netceptor.PacketConner{}
+		open := map[string]closer{}
 		want := map[string]bool{}
 		nopen := 2 + r.Intn(4)
+		// the first node offers work types: its control-service advertisements carry them, nobody else's do
+		workCmds := []netceptor.WorkCommand{{WorkType: "wt-a", Secure: false}, {WorkType: "wt-b", Secure: true}}
+		for _, wc := range workCmds {
+			_ = m.Nodes[names[0]].AddWorkCommand(wc.WorkType, wc.Secure)
+		}
 		for k := 0; k < nopen; k++ {
 			node := names[r.Intn(n-1)]
 			svc := fmt.Sprintf("sv%d", k)
 			tag := fmt.Sprintf("k%d", r.Intn(1000))
-			pc, err := m.Nodes[node].ListenPacketAndAdvertise(svc, map[string]string{"k": tag})
+			tags := map[string]string{"k": tag}
+			typ := ""
+			var wc []netceptor.WorkCommand
+			if k == 0 || r.Chance(30) { // a control service (on the node with work types at least once)
+				typ = "Control Service"
+				if k == 0 {
+					node = names[0]
+				}
+				tags["type"] = typ
+				if node == names[0] {
+					wc = workCmds
+				}
+			}
+			var cl closer
+			var err error
+			connType := netceptor.ConnTypeDatagram
+			if r.Chance(35) { // a stream listener
+				connType = netceptor.ConnTypeStream
+				cl, err = m.Nodes[node].ListenAndAdvertise(svc, nil, tags)
+			} else {
+				cl, err = m.Nodes[node].ListenPacketAndAdvertise(svc, tags)
+			}
 			if err != nil {
 				continue
 			}
-			open[node+"/"+svc+"/"+tag] = pc
-			want[node+"/"+svc+"/"+tag] = true
+			key := adKey(node, svc, tag, typ, byte(connType), wc)
+			open[key] = cl
+			want[key] = true
 		}
 		time.Sleep(time.Duration(100+r.Intn(400)) * time.Millisecond)
 		// close some, reopen one with another tag
@@ -373,18 +415,18 @@ func meshScenarios(c *Ctx, im *Impl) {
 				for k := 0; k < nopen+1; k++ {
 					svc := fmt.Sprintf("sv%d", k)
 					info, found := nd.GetServiceInfo(owner, svc)
-					wantTag, wanted := "", false
+					wantKey, wanted := "", false
 					for w := range want {
 						parts := strings.SplitN(w, "/", 3)
 						if parts[0] == owner && parts[1] == svc {
-							wantTag, wanted = parts[2], true
+							wantKey, wanted = w, true
 						}
 					}
 					switch {
 					case found != wanted:
 						im.Violate(fmt.Sprintf("node %s: GetServiceInfo(%s, %s) found=%v, but the listener is open=%v", id, owner, svc, found, wanted), "service-info-wrong", rec)
-					case found && (info.NodeID != owner || info.Service != svc || info.Tags["k"] != wantTag):
-						im.Violate(fmt.Sprintf("node %s: GetServiceInfo(%s, %s) returns %s/%s tags %v, want tag %s", id, owner, svc, info.NodeID, info.Service, info.Tags, wantTag), "service-info-wrong", rec)
+					case found && adKey(info.NodeID, info.Service, info.Tags["k"], info.Tags["type"], info.ConnType, info.WorkCommands) != wantKey:
+						im.Violate(fmt.Sprintf("node %s: GetServiceInfo(%s, %s) returns %s/%s tags %v conn %d work %v, want %s", id, owner, svc, info.NodeID, info.Service, info.Tags, info.ConnType, info.WorkCommands, wantKey), "service-info-wrong", rec)
 					}
 				}
 			}
